@@ -118,6 +118,7 @@ func init() {
 			witnessFamily("C07"),
 			{Name: "matrix", N: tierN(1200, 12000), Run: c07Matrix},
 			{Name: "boolops", N: tierN(1000, 10000), Run: c07BoolOps},
+			{Name: "big", N: bigN("C07"), Run: bigRun("C07")},
 			{Name: "rand", N: tierN(150000, 6000000), Run: c07Random},
 		},
 	})
